@@ -34,6 +34,9 @@ def scenarios(tier):
                 N = 3 if q else 5
                 out.append(dict(name=f"continuous-R{R}-f{f}-N{N}-{'rev' if rev else 'fwd'}", fn="run", params=dict(R=R, N=N, rev=rev, cont=f, mmax=2, names=False), cost=R ** 3 * N * 2))
     out.append(dict(name="names-in-config", fn="run", params=dict(R=2, N=3, rev=False, cont=0, mmax=1, names=True), cost=5))
+    # discrete tables whose rows are not in time order (e.g. ordered by location): each row still enters at the step of its own time
+    out.append(dict(name="unsorted-disc-fwd", fn="run", params=dict(R=3, N=3, rev=False, cont=0, mmax=1, names=False, unsorted=True), cost=8))
+    out.append(dict(name="unsorted-disc-rev", fn="run", params=dict(R=3, N=3, rev=True, cont=0, mmax=1, names=False, unsorted=True), cost=8))
     out.append(dict(name="subtick-continuous", fn="subtick", params=dict(mode="continuous"), cost=3))
     out.append(dict(name="subtick-discrete", fn="subtick", params=dict(mode="discrete"), cost=3))
     out.append(dict(name="typed-disc", fn="run", params=dict(R=2, N=3, rev=False, cont=0, mmax=2, names=False, typed=True), cost=5))
@@ -65,7 +68,8 @@ def run(W, p):
     # --- the table: times at step offsets m_i (simulation order), several rows per time allowed
     m = [W.int(f"m{i}", -2, N + 1) for i in range(R)]
     for i in range(R - 1):
-        W.assume(m[i] <= m[i + 1], "rows sorted in simulation order")
+        if not p.get("unsorted"):
+            W.assume(m[i] <= m[i + 1], "rows sorted in simulation order")
     mc = [W.idx(x) for x in m]
     if cont:
         for i in range(R):
